@@ -203,7 +203,14 @@ func TestC17(t *testing.T) {
 		if rapid.IntRange(0, 2).Draw(t, "handmade") != 0 {
 			body := rapid.SampledFrom(jsonBodies).Draw(t, "body")
 			if rapid.Bool().Draw(t, "replace") {
-				src = "replace all " + body + " with '[' value ']' " + Quote(rapid.SampledFrom(jsonTextPieces).Draw(t, "wq"))
+				switch rapid.IntRange(0, 3).Draw(t, "withkind") {
+				case 0:
+					src = "replace all " + body + " with ''" // the empty replacement is still a replacement
+				case 1:
+					src = "replace all " + body + " with nosuch first" // only names: may contribute nothing
+				default:
+					src = "replace all " + body + " with '[' value ']' " + Quote(rapid.SampledFrom(jsonTextPieces).Draw(t, "wq"))
+				}
 			} else {
 				src = "find " + strings.Join(genAmount(t), " ") + " " + body
 			}
@@ -241,6 +248,9 @@ func TestC17(t *testing.T) {
 		}
 		if strings.HasPrefix(src, "replace") {
 			st.Count("replace_cmd")
+			if strings.Contains(src, "with ''") || strings.Contains(src, "with nosuch") {
+				st.Count("possibly_empty_replacement")
+			}
 		}
 		if !utf8.ValidString(text) {
 			st.Count("invalid_utf8_text")
